@@ -236,6 +236,14 @@ class Gen:
                 self.nodes[c]['plan']['ret'] = ['lit', rng.choice([None, None, 0, '', False, []])]
             # make early candidates fail often so that fallbacks are exercised
             node = self.nodes[c]
+            if i < n - 1 and rng.random() < 0.5:
+                # fail one level above the candidate (a private dependency), so that the candidate's other
+                # dependencies - possibly shared with other consumers - may still be in flight when it fails
+                priv = [m[1] for _, m in node['params'] if m[0] == 'in' and m[1] != 'N0'
+                        and m[1] not in visible[:len(visible) - 1 - i] and self.nodes[m[1]]['kind'] == 'plain'
+                        and not self.nodes[m[1]].get('start_of')]
+                if priv and len(node['params']) >= 2:
+                    node = self.nodes[rng.choice(priv)]
             if i < n - 1 and rng.random() < 0.6 and not node['plan'].get('fail'):
                 node['plan']['fail'] = ['ALWAYS', rng.choice(['E1', 'E2', 'EOther', 'EFalsy'])]
                 node.pop('retry', None)
